@@ -30,7 +30,7 @@ func allViews(pj *simdjson.ParsedJson) string {
 
 func checkC16(c *Ctx) {
 	r := c.Rng
-	c.Ev.Coverage.Rule = "(i) with string copying (default), after Parse/ParseND returns the caller's buffer is overwritten (zeros, 0xff, random, shifted copy of itself) and every read path (traversal, Interface, ForEach), MarshalJSON and a serialize round trip must be unchanged; (ii) copy and no-copy parses expose the same document while the input is intact; (iii) Clone(nil), Clone(reused destination) and Clone(&zero value): random edit histories applied alternately to the original and to the clone, each compared after every step against its own expected document, the other must not move; buffers of original and clone must not alias; (iv) one Object/Array destination value reused across documents that share buffers (Parse with reuse in no-copy mode, Clone into an earlier clone, Deserialize into an earlier result) reads the current document. non-trivial = document with at least one string; distinct = by (document, overwrite kind / edit history)"
+	c.Ev.Coverage.Rule = "(i) with string copying (default, explicit, or the last of several WithCopyStrings options), after Parse/ParseND returns the caller's buffer is overwritten (zeros, 0xff, random, shifted copy of itself) and every read path (traversal, Interface, ForEach), MarshalJSON and a serialize round trip must be unchanged; (ii) copy and no-copy parses expose the same document while the input is intact; (iii) Clone(nil), Clone(reused destination) and Clone(&zero value): random edit histories applied alternately to the original and to the clone, each compared after every step against its own expected document, the other must not move; buffers of original and clone must not alias; (iv) one Object/Array destination value reused across documents that share buffers (Parse with reuse in no-copy mode, Clone into an earlier clone, Deserialize into an earlier result) reads the current document. non-trivial = document with at least one string; distinct = by (document, overwrite kind / edit history)"
 	n := c.N(1200, 15000)
 	var cloneDst *simdjson.ParsedJson
 	for i := 0; i < n; i++ {
@@ -79,6 +79,10 @@ func checkC16(c *Ctx) {
 			} else {
 				out = implParseDefault(buf, nd, prev.PJ)
 			}
+		} else if i%6 == 5 {
+			// an option list: options apply in order, the last WithCopyStrings decides
+			out = implParseOpts(buf, nd, nil, simdjson.WithCopyStrings(false), simdjson.WithCopyStrings(true))
+			info["options"] = "WithCopyStrings(false), WithCopyStrings(true)"
 		} else {
 			out = implParse(buf, nd, true, nil)
 		}
